@@ -76,9 +76,13 @@ static inline std::string jstr(const std::string &s) {
 static inline std::string strf(const char *fmt, ...) __attribute__((format(printf, 1, 2)));
 #include <cstdarg>
 static inline std::string strf(const char *fmt, ...) {
-    char buf[2048];
-    va_list ap; va_start(ap, fmt); vsnprintf(buf, sizeof buf, fmt, ap); va_end(ap);
-    return std::string(buf);
+    char buf[1024];
+    va_list ap; va_start(ap, fmt); int n = vsnprintf(buf, sizeof buf, fmt, ap); va_end(ap);
+    if (n < (int)sizeof buf) return std::string(buf, n < 0 ? 0 : n);
+    std::string big((size_t)n + 1, '\0');
+    va_start(ap, fmt); vsnprintf(&big[0], big.size(), fmt, ap); va_end(ap);
+    big.resize((size_t)n);
+    return big;
 }
 
 // ---------------------------------------------------------------- event log
